@@ -374,6 +374,9 @@ func (b *Scripted) begin(ctx context.Context, md protoreflect.MethodDescriptor) 
 }
 
 func (b *Scripted) Unary(ctx context.Context, md protoreflect.MethodDescriptor, in proto.Message) (proto.Message, error) {
+	if md.Name() == "UploadU" {
+		return b.uploadUnary(ctx, md, in)
+	}
 	if md.Input().FullName() != chunkMD.FullName() {
 		return nil, status.Error(codes.Unimplemented, "proxy engine: method not scripted")
 	}
